@@ -88,6 +88,32 @@ def run_scale(ctx):
                     ctx.violation("entry-points-disagree:number-spelling-twins:%s" % ename, {"twins": True, "n": n, "text": text}, {"text": text, "right_hand_values": n, "entry_point": ename, "got": o.desc() if not o.ok else repr(o.value)[:300], "findall": repr(want_)[:300]})
                     return
         ctx.cell("scale", "number-spelling twins, right-hand values=%d" % n)
+    # numbers of the other numeric types a caller's loader may produce (json.loads(..., parse_float=Decimal), Fraction):
+    # equal to builtin numbers under ==, hashable, but neither int nor float. No model here - every entry point must
+    # decide what the eager one decides.
+    from decimal import Decimal
+    from fractions import Fraction
+
+    async def _arepr(p_, doc):
+        return [repr(m.obj) async for m in await p_.finditer_async(doc)]
+    num_l = [10, 12.5, Decimal("3"), Fraction(2, 1), 7, {"p": Decimal("10.0")}, [Fraction(1, 2)], 0.5, "10", True, Decimal("1e2"), 100]
+    num_r = [Decimal("10.0"), Decimal("12.5"), 3, 2, 7.0, {"p": 10}, [0.5], Fraction(1, 2), 10, 1, 100, Fraction(200, 2)]
+    for n in (12, 40, 300):
+        doc = {"L": list(num_l), "R": list(num_r) + [{"filler": i} for i in range(n - len(num_r))]}
+        for text in ("$.L[*] & $.R[*]", "$.R[*] & $.L[*]", "$.L[*] & $.R[*] | $.L[2]", "$.L[*] | $.R[*] & $.L[*]", "$.L[2:] & $.R[:4]"):
+            p_ = jsonpath.compile(text)
+            ref_ = impl.call(lambda: [repr(v) for v in p_.findall(doc)])
+            ctx.evaluation()
+            for ename, fn in (("finditer", lambda: [repr(m.obj) for m in p_.finditer(doc)]), ("query", lambda: [repr(v) for v in p_.query(doc).values()]), ("module.finditer", lambda: [repr(m.obj) for m in jsonpath.finditer(text, doc)]),
+                              ("module.findall", lambda: [repr(v) for v in jsonpath.findall(text, doc)]), ("module.query", lambda: [repr(v) for v in jsonpath.query(text, doc).values()]),
+                              ("match", lambda: [repr(p_.match(doc).obj)] if p_.match(doc) is not None else []), ("module.match", lambda: [repr(jsonpath.match(text, doc).obj)] if jsonpath.match(text, doc) is not None else []),
+                              ("findall_async", lambda: [repr(v) for v in __import__("asyncio").run(p_.findall_async(doc))]), ("finditer_async", lambda: __import__("asyncio").run(_arepr(p_, doc)))):
+                o = impl.call(fn)
+                want_ = ref_.value[:1] if ename.endswith("match") and ref_.ok else ref_.value
+                if not ref_.ok or not o.ok or o.value != want_:
+                    ctx.violation("entry-points-disagree:other-numeric-types:%s" % ename, {"other_numeric_types": True}, {"text": text, "right_hand_values": n, "entry_point": ename, "got": o.desc() if not o.ok else repr(o.value)[:300], "findall": repr(want_)[:300] if ref_.ok else ref_.desc()})
+                    return
+            ctx.count("compound_queries_over_other_numeric_types")
 
 
 def run_threads(ctx, rounds):
@@ -347,7 +373,7 @@ def replay(case, ctx, tag="replay"):
     if case.get("kind") == "threads":
         run_threads(ctx, 25)
         return
-    if case.get("twins"):
+    if case.get("twins") or case.get("other_numeric_types"):
         run_scale(ctx)
         return
     if case.get("in_place"):
